@@ -2,4 +2,4 @@
 From Coq Require Import List Bool.
 From JV Require Import Kit.GenTypes Gen.G_losses.
 Definition g_sys_weights (pde : bool) := if pde then gen_sys_weights_pde else gen_sys_weights_ode.
-Definition g_sys_wiring : bool := gen_sys_pde_time_first && gen_sys_param_batch_is_functional && gen_sys_evaluate_wiring && gen_sys_constraints_wiring.
+Definition g_sys_wiring : bool := gen_sys_pde_time_first && gen_sys_param_batch_is_functional && gen_sys_evaluate_wiring && gen_sys_constraints_wiring && gen_sys_constraints_per_unknown.
